@@ -112,11 +112,12 @@ def bv_literal(t):
 class Evaluator:
     """memoising term evaluator; `dom` supplies the interpretation"""
 
-    def __init__(self, vc, dom):
+    def __init__(self, vc, dom, memo_ids=True):
         self.vc = vc
         self.dom = dom
         self.memo_sym = {}
         self.memo_id = {}
+        self.memo_ids = memo_ids  # must be off when expressions are parsed and dropped on the fly (object ids get reused)
         self.env = [{}]
 
     def sym(self, name):
@@ -124,7 +125,10 @@ class Evaluator:
             if name in fr:
                 return fr[name]
         if name in self.memo_sym:
-            return self.memo_sym[name]
+            v = self.memo_sym[name]
+            if isinstance(v, tuple) and v and v[0] == "unsupported":
+                raise Unsupported(v[1])
+            return v
         if name in self.vc.defs:
             v = self.ev(self.vc.defs[name])
         elif name in self.vc.decls:
@@ -146,6 +150,8 @@ class Evaluator:
     def ev(self, t):
         if isinstance(t, str):
             return self.sym(t)
+        if not self.memo_ids:
+            return self._ev(t)
         key = id(t)
         if len(self.env) == 1 and key in self.memo_id:
             return self.memo_id[key]
@@ -185,6 +191,61 @@ class Evaluator:
             raise Unsupported("head %r" % (h,))
         args = [self.ev(x) for x in t[1:]]
         return self.dom.apply(h, args)
+
+
+class _StreamVC:
+    def __init__(self):
+        self.defs = {}
+        self.decls = {}
+
+
+def stream_eval(path, dom, wanted_rx):
+    """single forward pass over a (large) exported VC: every define-fun is evaluated as soon as it is read and its syntax is
+    dropped (CBMC prints definitions in dependency order).  Returns {name: value} for names matching wanted_rx, and the count
+    of definitions evaluated."""
+    import gc
+    gc.disable()  # millions of small long-lived objects: the cyclic collector only costs time here
+    vc = _StreamVC()
+    ev = Evaluator(vc, dom, memo_ids=False)
+    out = {}
+    n = 0
+    buf = None
+    with open(path) as f:
+        for line in f:
+            if buf is None:
+                if not (line.startswith("(define-fun ") or line.startswith("(declare-fun ") or line.startswith("(assert (= |goto_symex::")):
+                    continue
+                buf = line
+            else:
+                buf += line
+            if buf.count("(") > buf.count(")"):
+                continue  # definition continues on the next line
+            e = parse_sexprs(buf)[0]
+            buf = None
+            if e[0] == "declare-fun":
+                vc.decls[e[1]] = e[3]
+            elif e[0] == "define-fun":
+                name = e[1]
+                try:
+                    v = ev.ev(e[4])
+                except Unsupported as ex:
+                    # definitions that are not on the path of a wanted output may be uninterpretable (pointers, structs);
+                    # they only matter if something wanted refers to them
+                    v = ("unsupported", str(ex))
+                except (AttributeError, TypeError, KeyError, IndexError) as ex:
+                    v = ("unsupported", "not interpretable in this domain: %r" % (ex,))
+                ev.memo_sym[name] = v
+                n += 1
+                if wanted_rx.match(name):
+                    out[name] = v
+            elif e[0] == "assert":
+                a = e[1]
+                if isinstance(a, list) and len(a) == 3 and a[0] == "=" and isinstance(a[1], str) and a[1] in vc.decls and "guard" in a[1]:
+                    try:
+                        ev.memo_sym[a[1]] = ev.ev(a[2])
+                    except Unsupported as ex:
+                        ev.memo_sym[a[1]] = ("unsupported", str(ex))
+    return out, n
 
 
 # ----------------------------------------------------------------------------- dyadic numbers
@@ -583,6 +644,10 @@ class IntDom:
         self.hi_cache = {}
         self.nops = 0
         self.allow_signed = False  # set by analyses of code that computes with signed integers (conversions)
+        self.array_atoms = {}
+        self.max_terms = None
+        self.name_range = lambda name, width: (0, (1 << width) - 1)  # analyses override: range of a scalar nondeterministic symbol by name
+        self.array_range = lambda name, idx, width: (0, (1 << width) - 1)  # analyses override: range of element idx of array name
 
     def new_atom(self, name, lo, hi):
         i = len(self.names)
@@ -595,13 +660,15 @@ class IntDom:
         if isinstance(sort, list) and sort[:2] == ["_", "BitVec"]:
             w = int(sort[2])
             if name not in self.atoms:
-                lo, hi = self.atom_ranges.get(name, (0, (1 << w) - 1))
+                lo, hi = self.atom_ranges.get(name) or self.name_range(name, w)
                 self.new_atom(name, lo, hi)
             i = self.atoms[name]
             lo, hi = self.ranges[i]
             return IPoly({(i,): 1}, lo, hi, w)
         if sort == "Bool":
             raise Unsupported("nondeterministic Bool %s" % name)
+        if isinstance(sort, list) and sort[0] == "Array" and isinstance(sort[2], list) and sort[2][:2] == ["_", "BitVec"]:
+            return ("arrsym", name, int(sort[2][2]))  # an uninitialised (nondeterministic) array: elements become atoms on first read
         raise Unsupported("nondeterministic symbol %s of sort %r" % (name, sort))
 
     def bvconst(self, v, w):
@@ -830,6 +897,12 @@ class IntDom:
                 self._oblig(hi < (1 << w) and lo >= -(1 << (w - 1)), "bvadd may wrap 2^%d: interval [%d,%d]" % (w, lo, hi))
             else:
                 self._oblig(hi < (1 << w) and lo >= 0, "lazy add/subtract may wrap or borrow in %d bits: interval [%d,%d]" % (w, lo, hi))
+            if self.max_terms is not None and len(t) > self.max_terms:
+                # interval-only mode for very long accumulations: the exact polynomial is forgotten (replaced by an opaque atom with the
+                # same rigorous interval); range obligations stay sound, congruence claims are not made from such runs
+                i = self.new_atom("opaque_%d" % len(self.names), lo, hi)
+                self.defs[i] = ("opaque", {}, 0)
+                t = {(i,): 1}
             return IPoly(t, lo, hi, w, lo < 0)
         if op == "bvsub":
             a, b = args
@@ -959,6 +1032,15 @@ class IntDom:
         if op == "select":
             arr, idx = args
             c = self._const(idx) if isinstance(idx, IPoly) else None
+            if isinstance(arr, tuple) and arr[0] == "arrsym" and c is not None:
+                nm = "%s[%d]" % (arr[1], c)
+                if nm not in self.atoms:
+                    lo, hi = self.array_range(arr[1], c, arr[2])
+                    self.new_atom(nm, lo, hi)
+                    self.array_atoms[(arr[1], c)] = self.atoms[nm]
+                i = self.atoms[nm]
+                lo, hi = self.ranges[i]
+                return IPoly({(i,): 1}, lo, hi, arr[2])
             if isinstance(arr, tuple) and arr[0] == "arr" and c is not None:
                 if c in arr[1]:
                     return arr[1][c]
